@@ -232,9 +232,16 @@ type C20Case struct {
 
 func genC20(t *rapid.T) C20Case {
 	c := C20Case{History: genHistory(t, 3, 9, hKinds)}
-	k := rapid.IntRange(1, 3).Draw(t, "nrestarts")
-	for i := 0; i < k; i++ {
-		c.Restarts = append(c.Restarts, rapid.IntRange(1, len(c.History.Blocks)).Draw(t, "restart-at"))
+	if rapid.IntRange(0, 2).Draw(t, "all-boundaries") > 0 {
+		// every block boundary of the history
+		for k := 1; k <= len(c.History.Blocks); k++ {
+			c.Restarts = append(c.Restarts, k)
+		}
+	} else {
+		k := rapid.IntRange(1, 3).Draw(t, "nrestarts")
+		for i := 0; i < k; i++ {
+			c.Restarts = append(c.Restarts, rapid.IntRange(1, len(c.History.Blocks)).Draw(t, "restart-at"))
+		}
 	}
 	c.Double = rapid.Bool().Draw(t, "double")
 	return c
